@@ -48,7 +48,8 @@ TRUSTED = [
 ]
 ASSUMPTIONS = [
     "batch size >= 1 (the scheduler replaces batchSize < 1 by 10000)",
-    "no writes while a run is in progress (runs and writes are interleaved sequentially)",
+    "no writes while a run is in progress, except one scripted write to a non-main dataset between two sink calls of a full "
+    "sync (ORunMid; covered by the theorems); writes during incremental runs are not modelled",
     "all datasets exist before the first run and are local (no proxy datasets); the job configuration does not change between runs",
     "the completeness theorems are stated for LatestOnly = false (with LatestOnly the pinned tree AND the simple repairs lose "
     "previous-run links, finding F18d; the model and the correspondence cover LatestOnly)",
